@@ -166,9 +166,9 @@ class Version(object):
 _is_valid_version = re.compile(
     r'^'
     # epoch must start with a digit
-    r'(\d+:)?'
+    r'([0-9]+:)?'
     # upstream must start with a digit
-    r'\d'
+    r'[0-9]'
     r'('
       # upstream  can contain only alphanumerics and the characters . + -
       # ~ (full stop, plus, hyphen, tilde)
